@@ -236,8 +236,10 @@ def run_case(case):
         for d in obs.deals:
             if d['variant'] != 'random_split':
                 continue
-            fresh = d['t'] >= 1 and d['t'] == t and len(d.get('draw_args') or []) == d['t'] * d['n'] \
-                and all(a == d['order'] for a, _ in d['draw_args'])
+            dr = d.get('draw_args') or []
+            # (no randbelow call observed at all = randomness drawn through another API: not judged here)
+            fresh = d['t'] >= 1 and d['t'] == t and (not dr or (len(dr) == d['t'] * d['n']
+                                                                 and all(a == d['order'] for a, _ in dr)))
             if fresh:
                 fld = finfields.GF(d['order'])
                 rows[(d['pid'], bytes(fld.to_bytes([int(getattr(y, 'value', y)) for y in d['shares'][j]])))] += 1
